@@ -567,9 +567,10 @@ class Graph:
     pass
 
 
-def extract(build, exempt=None, deny=()):
+def extract(build, exempt=None, deny=(), accept=None):
     """deny: functions whose source-idiom match is NOT accepted as a guard (tools/gen/cgguard.py found no control-flow
     certificate for it in the IR); they can still be covered by a written exemption.
+    accept: {function: idiom tag} recognised as guards from the IR alone (cgguard.extract().ir_proposed).
     -> Graph with .nodes (sorted names on cycles), .edges {(a,b): kind}, .guard {name: (tag, limit)}, .rank {name:int},
     .bad (list of unguarded cycles as lists of names), plus bookkeeping for notes/evidence."""
     exempt = EXEMPT_INDIRECT if exempt is None else exempt
@@ -654,6 +655,7 @@ def extract(build, exempt=None, deny=()):
     g.guard = {}
     g.nobody = []
     g.denied = []
+    g.ir_only = []
     for nm in g.nodes:
         body = bodies.get(nm)
         if body is None:
@@ -661,6 +663,10 @@ def extract(build, exempt=None, deny=()):
             continue
         if nm in deny:
             g.denied.append(nm)
+            continue
+        if accept and nm in accept:
+            g.guard[nm] = (accept[nm], g.limits["JANET_RECURSION_GUARD"])
+            g.ir_only.append(nm)
             continue
         for tag, rx, lim in GUARD_IDIOMS:
             if re.search(rx, body):
@@ -704,7 +710,7 @@ def extract(build, exempt=None, deny=()):
                 failed_ind.append(ra)
     if failed_ind:
         # the exemption of those indirect edges no longer holds: redo with the edges kept
-        g2 = extract(build, exempt=[e for e in exempt if e[0] not in failed_ind], deny=deny)
+        g2 = extract(build, exempt=[e for e in exempt if e[0] not in failed_ind], deny=deny, accept=accept)
         g2.exemption_failures = g.exemption_failures + g2.exemption_failures
         return g2
     for nm in g.bounded:
